@@ -7,8 +7,11 @@ import (
 	"fmt"
 	"strings"
 	"sync"
+	"sync/atomic"
 	"testing/synctest"
 	"time"
+
+	"github.com/goptics/varmq"
 )
 
 func init() { registry["C06"] = runC06 }
@@ -353,7 +356,62 @@ func epC06Tail(c *RunCtx, cfg c06TailCfg) *Result {
 	return e.Result(k.Sample(cfg.String()))
 }
 
+// epWUFLoop: a tight loop of Add...; WaitUntilFinished on one worker, thousands of rounds in real
+// parallel with the dispatcher: windows narrower than a statement (two loads of one expression)
+// are only reachable by repetition, not by statement-level stalls.
+func epWUFLoop(c *RunCtx, wk WK, qk QK, conc, rounds, per int) *Result {
+	e := NewEnv(c.Prop)
+	e.Quiet = true
+	desc := fmt.Sprintf("wuf-loop wk=%v qk=%v conc=%d rounds=%d per=%d", wk, qk, conc, rounds, per)
+	var done atomic.Int64
+	early := 0
+	out := RunBubble(c.T, func(bid string) {
+		s := NewSubject(wk, func(j varmq.Job[int]) Outcome { done.Add(1); return Outcome{} }, conc)
+		q := s.Bind(qk, nil)
+		total := int64(0)
+		k := NewKit(e, 0)
+		for r := 0; r < rounds; r++ {
+			for i := 0; i < per; i++ {
+				q.Add(i, 0, "")
+			}
+			total += int64(per)
+			if !k.Await(s.W.WaitUntilFinished) {
+				e.Quiet = false
+				hangFail(e, "C06", "WaitUntilFinished/loop", bid)
+				return
+			}
+			if d := done.Load(); d != total {
+				early++
+				if early == 1 {
+					e.Quiet = false
+					e.Fail("C06", "early-return", "WaitUntilFinished", fmt.Sprintf("%s: round %d: WaitUntilFinished returned with %d of %d accepted jobs finished", desc, r, d, total))
+				}
+				synctest.Wait()
+				total = done.Load()
+			}
+		}
+		s.W.Stop()
+		synctest.Wait()
+	})
+	e.Quiet = false
+	if out.Kind == "hang" {
+		e.Fail("C06", "hang", "loop/"+blockedLibFrames(out.Stacks), desc+": "+out.Msg+"\n"+out.Stacks)
+	}
+	e.Stat("wuf_loop_rounds", float64(rounds))
+	e.Nontrivial()
+	rr := e.Result(map[string]any{"program": desc})
+	rr.Sig = fmt.Sprintf("%s-%d", desc, early)
+	return rr
+}
+
 func runC06(c *RunCtx) {
+	for v := 0; v < c.Q(48, 400); v++ {
+		c.Program(fmt.Sprintf("wuf-loop/%d", v), func(p *Prog) {
+			r := p.Rng
+			wk, qk, conc, per := Pick(r, WPlain, WErr, WResult), Pick(r, QFifo, QPrio), Pick(r, 1, 1, 2, 4), Pick(r, 1, 1, 2, 3)
+			p.Explore(func(pl Plan) *Result { return epWUFLoop(c, wk, qk, conc, c.Q(3000, 10000), per) }, ExploreOpts{Base: 2})
+		})
+	}
 	funcs := c06Funcs
 	if c.Thorough() {
 		funcs = nil
